@@ -166,6 +166,11 @@ pub fn run(ctx: &Ctx) -> i32 {
     if !ctx.thorough {
         wins[1] = (yr(1899, true), yr(1901, false));
         wins[2] = (yr(2019, true), yr(2025, false));
+    } else {
+        wins[0] = (yr(-12, true), yr(12, false));
+        wins[1] = (yr(1890, true), yr(1910, false));
+        wins[2] = (yr(2000, true), yr(2030, false));
+        wins.push((yr(-405, true), yr(-395, false)));
     }
     for (k, (lo, hi)) in wins.iter().cloned().enumerate() {
         let n = (hi - lo + 1) as u64;
@@ -176,7 +181,7 @@ pub fn run(ctx: &Ctx) -> i32 {
             }
         });
     }
-    let dwins = if ctx.thorough { vec![(yr(2019, true), yr(2021, false)), (yr(-2, true), yr(2, false))] } else { vec![(yr(2019, true) + 330, yr(2021, false) - 300), (yr(-1, true) + 300, yr(1, false) - 300)] };
+    let dwins = if ctx.thorough { vec![(yr(2018, true), yr(2025, false)), (yr(-5, true), yr(5, false)), (yr(1899, true), yr(1901, false))] } else { vec![(yr(2019, true) + 330, yr(2021, false) - 300), (yr(-1, true) + 300, yr(1, false) - 300)] };
     for (k, (lo, hi)) in dwins.iter().cloned().enumerate() {
         let n = (hi - lo + 1) as u64;
         rep.sweep(&format!("DateTime: all ordered pairs inside window {} ({} days) x 6x6 times of day", k, n), n * 6, "one index per (b, time of b)", move |i, acc| {
